@@ -30,7 +30,7 @@ Proof.
   induction s as [| |s' IH|l s' IH|f s' IH|f s' IH]; intros H; cbn in H; try discriminate.
   - apply mem_sim.
   - cbn [prov_of stack_rel]. apply cached_sim; [auto|reflexivity|apply IH; assumption].
-  - cbn [prov_of stack_rel]. apply batched_sim; [exact wf_op_batch|apply IH; assumption|auto|reflexivity].
+  - cbn [prov_of stack_rel]. apply batched_sim; [exact wf_op_batch|apply IH; assumption|auto|reflexivity|reflexivity].
 Qed.
 
 Lemma stack_rel_init s : mem_stack s = true -> stack_rel s (init (prov_of s)) [].
@@ -74,7 +74,7 @@ Proof.
   induction s as [| |s' IH|l s' IH|f s' IH|f s' IH]; intros H; cbn in H; try discriminate.
   - apply mem_sim.
   - cbn [prov_of stack_rel]. apply cached_sim; [exact wf1_wf|reflexivity|apply IH; assumption].
-  - cbn [prov_of stack_rel]. apply batched_sim; [exact wf1_op_batch|apply IH; assumption|exact wf1_wf|reflexivity].
+  - cbn [prov_of stack_rel]. apply batched_sim; [exact wf1_op_batch|apply IH; assumption|exact wf1_wf|reflexivity|reflexivity].
   - cbn [prov_of stack_rel]. apply formatted_det_sim; [apply fmt_of_ok|apply IH; assumption].
 Qed.
 
